@@ -58,10 +58,14 @@ PROPS = {
 
 # ---- entries contributed per unit family (vq/props_d/*.py) -----------------
 import importlib, pkgutil
+PENDING = {}
 from . import props_d as _pd
 for _m in sorted(pkgutil.iter_modules(_pd.__path__), key=lambda m: m.name):
     _mod = importlib.import_module('vq.props_d.' + _m.name)
     for _k, _v in _mod.PROPS_PART.items():
+        if 'level_text' not in _v:
+            PENDING[_k] = PENDING.get(_k, []) + [(_m.name, _v)]     # fragment of a property completed by other units
+            continue
         if _k in PROPS:
             raise RuntimeError('duplicate PROPS entry ' + _k)
         PROPS[_k] = _v
